@@ -42,47 +42,126 @@ theorem tokensOf_unsrc (d d' : Delims) (hg : GoodDelims d) (hg' : GoodDelims d')
     simp only [tokensOf, List.map_append, Item.spell_nl d hg, Item.spell_nl d' hg', Item.tokens_unsrc d d' line it,
       tokensOf_unsrc d d' hg hg' r]
 
-def Item.isRawTag : Item → Bool
-  | .tag name _ _ _ _ _ _ => name == rawName
+def Item.isTagNamed (n : Bytes) : Item → Bool
+  | .tag name _ _ _ _ _ _ => name == n
   | _ => false
 
-/-- no tag of the template is named `raw` -/
-def NoRawTag (items : List Item) : Prop := ∀ it ∈ items, it.isRawTag = false
+/-- every tag named `raw` is followed — at once, or after ONE text item (the body) — by a tag named `endraw` -/
+def rawClosed : List Item → Bool
+  | [] => true
+  | it :: r =>
+    if it.isTagNamed rawName then
+      match r with
+      | [] => false
+      | e :: r' =>
+        if e.isTagNamed endrawName then rawClosed r'
+        else match e, r' with
+          | .text _, e' :: r'' => e'.isTagNamed endrawName && rawClosed r''
+          | _, _ => false
+    else rawClosed r
 
-instance (items : List Item) : Decidable (NoRawTag items) := by unfold NoRawTag; infer_instance
+/-- the raw blocks of the template are closed and their bodies are texts (`rawClosed`) -/
+def RawClosed (items : List Item) : Prop := rawClosed items = true
 
-theorem tokensOf_noRaw (d : Delims) : ∀ (items : List Item) (line : Nat), NoRawTag items →
-    ∀ t ∈ tokensOf d items line, ¬ (t.ty = .tag ∧ t.name = rawName)
-  | [], _, _, t, ht => by simp [tokensOf] at ht
-  | it :: r, line, h, t, ht => by
-    simp only [tokensOf, List.mem_append] at ht
-    rcases ht with ht | ht
-    · have hit := h it (List.mem_cons_self ..)
-      cases it with
-      | text s =>
-        simp only [Item.tokens, List.mem_singleton] at ht
-        subst ht; intro hx; cases hx.1
-      | obj args hl hr wl wr =>
-        simp only [Item.tokens, List.mem_append, List.mem_singleton] at ht
-        rcases ht with (ht | ht) | ht
-        · split at ht
-          · simp only [List.mem_singleton] at ht; subst ht; intro hx; cases hx.1
-          · cases ht
-        · subst ht; intro hx; cases hx.1
-        · split at ht
-          · simp only [List.mem_singleton] at ht; subst ht; intro hx; cases hx.1
-          · cases ht
-      | tag name args hl hr wl wm wr =>
-        simp only [Item.tokens, List.mem_append, List.mem_singleton] at ht
-        rcases ht with (ht | ht) | ht
-        · split at ht
-          · simp only [List.mem_singleton] at ht; subst ht; intro hx; cases hx.1
-          · cases ht
-        · subst ht; intro hx; simp only [Item.isRawTag, beq_eq_false_iff_ne] at hit; exact hit hx.2
-        · split at ht
-          · simp only [List.mem_singleton] at ht; subst ht; intro hx; cases hx.1
-          · cases ht
-    · exact tokensOf_noRaw d r _ (fun x hx => h x (List.mem_cons_of_mem _ hx)) t ht
+instance (items : List Item) : Decidable (RawClosed items) := by unfold RawClosed; infer_instance
+
+theorem rawSafe_trimL (b : Bool) (ts : List Token) : rawSafe b (({ ty := .trimL } : Token) :: ts) = rawSafe b ts := by
+  cases b <;> rfl
+
+theorem rawSafe_trimR (b : Bool) (ts : List Token) : rawSafe b (({ ty := .trimR } : Token) :: ts) = rawSafe b ts := by
+  cases b <;> rfl
+
+theorem rawSafe_tag_false (t : Token) (ts : List Token) (h : t.ty = .tag) :
+    rawSafe false (t :: ts) = rawSafe (t.name == rawName) ts := by simp [rawSafe, h]
+
+theorem rawSafe_obj_false (t : Token) (ts : List Token) (h : t.ty = .obj) :
+    rawSafe false (t :: ts) = rawSafe false ts := by
+  have : (TokTy.obj == TokTy.tag) = false := rfl
+  simp [rawSafe, h, this]
+
+theorem rawSafe_endraw_tok (t : Token) (ts : List Token) (h : isEndRaw t = true) :
+    rawSafe true (t :: ts) = rawSafe false ts := by simp [rawSafe, h]
+
+/-- an item's tokens outside a raw block: the flag afterwards says whether the item is a `raw` tag -/
+theorem rawSafe_item_false (d : Delims) (l : Nat) (it : Item) (ts : List Token) :
+    rawSafe false (it.tokens d l ++ ts) = rawSafe (it.isTagNamed rawName) ts := by
+  cases it with
+  | text s => rfl
+  | obj args hl hr wl wr =>
+    cases hl <;> cases hr <;>
+      simp only [Item.tokens, if_true, Bool.false_eq_true, if_false, List.nil_append, List.append_nil, List.cons_append,
+        rawSafe_trimL] <;>
+      rw [rawSafe_obj_false _ _ rfl] <;> simp only [rawSafe_trimR, Item.isTagNamed]
+  | tag name args hl hr wl wm wr =>
+    cases hl <;> cases hr <;>
+      simp only [Item.tokens, if_true, Bool.false_eq_true, if_false, List.nil_append, List.append_nil, List.cons_append,
+        rawSafe_trimL] <;>
+      rw [rawSafe_tag_false _ _ rfl] <;> simp only [rawSafe_trimR, Item.isTagNamed]
+
+/-- inside a raw block: a text keeps the block open, the `endraw` tag closes it -/
+theorem rawSafe_text_true (d : Delims) (l : Nat) (s : Bytes) (ts : List Token) :
+    rawSafe true ((Item.text s).tokens d l ++ ts) = rawSafe true ts := rfl
+
+theorem rawSafe_endraw_true (d : Delims) (l : Nat) (it : Item) (h : it.isTagNamed endrawName = true) (ts : List Token) :
+    rawSafe true (it.tokens d l ++ ts) = rawSafe false ts := by
+  cases it with
+  | text s => cases h
+  | obj args hl hr wl wr => cases h
+  | tag name args hl hr wl wm wr =>
+    have hn : name = endrawName := by simpa [Item.isTagNamed] using h
+    subst hn
+    cases hl <;> cases hr <;>
+      simp only [Item.tokens, if_true, Bool.false_eq_true, if_false, List.nil_append, List.append_nil, List.cons_append,
+        rawSafe_trimL] <;>
+      rw [rawSafe_endraw_tok _ _ (by simp [isEndRaw])] <;> simp only [rawSafe_trimR]
+
+theorem tokensOf_rawSafe (d : Delims) : ∀ (k : Nat) (items : List Item) (line : Nat), items.length ≤ k → RawClosed items →
+    rawSafe false (tokensOf d items line) = true := by
+  intro k
+  induction k with
+  | zero =>
+    intro items line hk _
+    have : items = [] := List.eq_nil_of_length_eq_zero (Nat.le_zero.mp hk)
+    subst this; rfl
+  | succ k ih =>
+    intro items line hk h
+    cases items with
+    | nil => rfl
+    | cons it r =>
+      unfold RawClosed at h
+      simp only [tokensOf, rawSafe_item_false]
+      simp only [List.length_cons] at hk
+      cases hraw : it.isTagNamed rawName with
+      | false =>
+        unfold rawClosed at h
+        simp only [hraw, Bool.false_eq_true, if_false] at h
+        exact ih r _ (by omega) h
+      | true =>
+        unfold rawClosed at h
+        simp only [hraw, if_true] at h
+        cases r with
+        | nil => cases h
+        | cons e r' =>
+          simp only at h
+          simp only [tokensOf]
+          cases he : e.isTagNamed endrawName with
+          | true =>
+            simp only [he, if_true] at h
+            rw [rawSafe_endraw_true d _ e he]
+            exact ih r' _ (by simp only [List.length_cons] at hk; omega) h
+          | false =>
+            simp only [he, Bool.false_eq_true, if_false] at h
+            cases e with
+            | obj args hl hr wl wr => cases h
+            | tag name args hl hr wl wm wr => cases h
+            | text s =>
+              cases r' with
+              | nil => cases h
+              | cons e' r'' =>
+                simp only [Bool.and_eq_true] at h
+                simp only [tokensOf]
+                rw [rawSafe_text_true, rawSafe_endraw_true d _ e' h.1]
+                exact ih r'' _ (by simp only [List.length_cons] at hk; omega) h.2
 
 /-! ## Tokens of a template, item by item -/
 
